@@ -510,14 +510,23 @@ pub fn explore(cfg: &Cfg, ctx: &Ctx) -> Explored {
                         if !info.findings.is_empty() {
                             let mut np = entry_path(cfg, entry);
                             np.push(s);
+                            let mut reported = false;
                             for (class, what) in &info.findings {
                                 if cfg.report.iter().any(|p| class.starts_with(p)) {
                                     let mut all = g0.1.clone();
                                     all.extend_from_slice(&g.1);
                                     co.viols.push(e1_viol(cfg.kind, class, what.clone(), &np, &all));
+                                    reported = true;
                                 } else {
                                     co.other.inc(class);
                                 }
+                            }
+                            // A boundary reached by a transition on which only *another* property's rule
+                            // fired (e.g. a wrong count returned by finalize) is still a boundary state whose
+                            // freshness C14 must examine; it is collected but not expanded.
+                            if cfg.collect_boundaries && info.boundary.is_some() && !reported {
+                                let snap = child.serialize(&mut ser);
+                                co.bounds.push((snap, pi as u32, si as u16));
                             }
                             continue;
                         }
@@ -860,5 +869,5 @@ pub fn die(msg: &str) -> ! {
     machinery(msg)
 }
 pub fn finish_e1(ctx: &Ctx, cov: J, assumptions: Vec<String>, tally: Tally) -> ! {
-    finish(ctx, cov, assumptions, tally, &replay)
+    finish(ctx, cov, assumptions, tally, &crate::replay_case)
 }
